@@ -147,7 +147,7 @@ def step (st : State) (line : String) : State × String :=
     | some w, some l, some n, some calls =>
       let cs := calls.splitOn ","
       let okCall (c : String) : Bool :=
-        c == "limit" || c == "workers" || c == "listen" ||
+        c == "limit" || c == "maxconn" || c == "workers" || c == "listen" || c == "mptcp:0" || c == "mptcp:1" ||
         (match c.splitOn ":" with
          | ["blocking", k] | ["backlog", k] | ["timeout", k] => (k.toNat?.map (fun k => decide (1 ≤ k ∧ k ≤ 4096))).getD false
          | _ => false)
@@ -158,7 +158,7 @@ def step (st : State) (line : String) : State × String :=
         | none => true
         | some k => (k.toNat?.map (fun k => decide (k ≤ 8))).getD false && !k.startsWith "+"
       if relOk = true ∧ (cs.filter (· == "listen")).length ≤ 3 ∧ killOk = true ∧ 1 ≤ w ∧ w ≤ 8 ∧ 1 ≤ l ∧ l ≤ 16 ∧ w * l ≤ n ∧ n ≤ 64 ∧ cs.all okCall ∧
-          (cs.filter (· == "limit")).length = 1 ∧ (cs.filter (· == "workers")).length = 1 then
+          (cs.filter (fun c => c == "limit" || c == "maxconn")).length = 1 ∧ (cs.filter (· == "workers")).length = 1 then
         let cfg : Cfg := { limit := l, nIdx := w }
         let ops : List Op := (List.replicate n (Op.env (.connect 0))) ++ [Op.poll [.listener 0, .waker] []]
         let s := ActixNet.Srv.run cfg (ActixNet.Srv.init cfg [.tcp]) ops
